@@ -30,6 +30,23 @@ def wrap_of(term: P):
     return None
 
 
+def total_wrap(ev, tdef: P, tatom: P):
+    """t = fmod(x, 1); t[t < 0] += 1; t[t >= 1] = 0   ->  x  (a wrap into [0,1) that is right for every finite x), else None."""
+    from ..symex import obj_init
+    init = obj_init(tdef).as_atom()
+    if not (init and init[0] == "call" and call_name(init) in ("numpy.fmod",) and len(init[2]) == 2 and init[2][1] == P.const(1)):
+        return None
+    x = init[2][0]
+    t = tatom.key()
+    up = zero = False
+    for e in ev.events:
+        if e.kind == "aug" and e.target.key() == f"{t}[(lt {t} 0)]" and e.value == P.const(1) and (e.op in (None, "Add", "+")):
+            up = True
+        if e.kind == "store" and e.target.key() == f"{t}[(le 1 {t})]" and e.value == P.const(0) and up:
+            zero = True
+    return x if (up and zero) else None
+
+
 def run(chk):
     repo = chk.repo
     cr = repo.module(CR)
@@ -290,12 +307,26 @@ def r01_234(chk, cr):
                found=f"{d.get('cart_pos')} vs {d.get('frac_pos')}")
     if chk.want("R01.3"):
         w = wrap_of(defs["translated"])
+        tot = total_wrap(ev, defs["translated"], trans)
+        if tot is not None:
+            w = (tot, 1)                       # range [0,1) for every x: counts as a half-open idiom with unbounded K
         chk.ob("R01.3", CR, q, "positions are wrapped with an idiom whose range is the half-open [0,1): fmod(x + K, 1) with an integer K >= 1 "
                "(x % 1 returns exactly 1.0 for x = -1e-17, which lies outside the cell and is never merged with its image at 0.0)",
                w is not None and w[0].key() == "$uc_pos" and w[1] >= 1, fingerprint="wrap-idiom",
                expected="numpy.fmod(uc_pos + K, 1), K >= 1", found=str(defs["translated"]))
-        if w is not None and w[1] > 0:
-            chk.assume(f"np.fmod(x + {w[1]}, 1) lies in [0,1) provided x >= -{w[1]} (fractional coordinates of real structures)")
+        total = tot is not None      # fmod(x + K, 1) keeps the sign of x + K: it is in [0,1) only for x >= -K
+        chk.ob("R01.3", CR, q, "the wrap is total: every real coordinate is mapped into [0,1) (an image coordinate below -K stays negative under "
+               "fmod(x + K, 1))", total if (w is not None and w[1] >= 1) else True, fingerprint="wrap-total",
+               expected="a wrap that is correct for every x, e.g. t = fmod(x, 1); t[t < 0] += 1; t[t >= 1] = 0",
+               found=f"{defs['translated']}: in [0,1) only for x >= -{w[1] if w else '?'}")
+        # coincidence is a distance between atoms: a fixed fractional tolerance is 1.2 A in a 120 A cell (bonded atoms merge)
+        tol_scaled = False
+        if ds_term(defs) is not None:
+            tk = ds_term(defs).key()
+            tol_scaled = any(wd in tk for wd in ("lengths", "inverse", "norm(", "/")) or "cart" in str(defs.get("tree"))
+        chk.ob("R01.3", CR, q, "coincidence is decided by a distance between atoms (Cartesian, or a tolerance scaled by the cell lengths), not by a "
+               "fixed distance in fractional coordinates", tol_scaled, fingerprint="merge-metric", expected="tolerance in Angstrom",
+               found=f"{ds_term(defs)} on a tree of fractional coordinates")
         tr = defs.get("tree")
         chk.ob("R01.3", CR, q, "the KD-tree used for merging is built on the wrapped positions",
                tr is not None and tr.as_atom() and "KDTree" in tr.as_atom()[1].key() and tr.as_atom()[2][0].key() == trans.key(),
@@ -306,9 +337,13 @@ def r01_234(chk, cr):
                "has the unit box as its period", bs is not None and bs.const_value() == 1, fingerprint="periodic-tree",
                expected="KDTree(wrapped, boxsize=1.0)", found=str(tr))
         kind, desc = pair_enumeration(ev, defs)
+        # with the "both members still unmerged" test in the loop the result does not depend on the order of the pairs
+        from ..updates import updates_of as _uo
+        _acc = [u for u in _uo(ev) if u.loops and u.delta is not None and "occupation" in u.root.key()]
+        _alive = bool(_acc) and " ".join(c.key() for c, p in _acc[0].guards).count(mask.key()) >= 2
         chk.ob("R01.3", CR, q, "coincident images are enumerated by a tolerance-bounded query of the tree against itself, in a defined order "
-               "(with three or more coincident images the accumulated occupancy depends on the order in which pairs are merged)",
-               kind == "ordered", fingerprint="pair-enumeration", expected="tree.sparse_distance_matrix(tree, max_distance=tolerance).items() "
+               "unless the merge is order-independent (with three or more coincident images an unguarded accumulation depends on the order)",
+               kind == "ordered" or (kind == "unordered" and _alive), fingerprint="pair-enumeration", expected="tree.sparse_distance_matrix(tree, max_distance=tolerance).items() "
                "or sorted(tree.query_pairs(tolerance))", found=desc)
         mi = defs.get("mask")
         chk.ob("R01.3", CR, q, "the mask starts all-true over every generated image",
@@ -359,6 +394,22 @@ def r01_234(chk, cr):
         chk.ob("R01.4", CR, q, "only pairs with i strictly below j are merged (self pairs never mask a site)",
                (strict or not needs_filter) and tuple((c.key(), p) for c, p in a.guards) == tuple((c.key(), p) for c, p in s.guards),
                found=[f"{'' if p else 'not '}{c}"[-80:] for c, p in a.guards][-1:])
+        gtxt = " ".join(c.key() for c, p in a.guards)
+        # an absorbed site gives its occupancy to exactly one survivor: both members of a merged pair must still be alive, otherwise a chain
+        # a~b~c (a not within tolerance of c) credits b's occupancy twice or adds to a site that is itself dropped
+        alive = mask.key() in gtxt and ia.key() in gtxt and ib.key() in gtxt and gtxt.count(mask.key()) >= 2
+        chk.ob("R01.4", CR, q, "total occupancy is conserved: a pair is merged only while both members are still unmerged (closeness within the "
+               "tolerance is not transitive)", alive, node=a.event.node, fingerprint="merge-alive", expected="if mask[i] and mask[j]: ...",
+               found=[f"{'' if p else 'not '}{c}"[-80:] for c, p in a.guards])
+        # only images of one and the same asymmetric-unit site are merged (two elements sharing a position are two sites)
+        same_site = any(w in gtxt for w in ("asym[", "uc_nums[", "asym_atom", "labels[", "numpy.tile(self.site_atoms", "numpy.tile(atoms"))
+        chk.ob("R01.4", CR, q, "only sites of the same element (or the same asymmetric-unit site) are merged: two elements sharing a position stay two sites",
+               same_site, node=a.event.node, fingerprint="merge-same-site", expected="uc_nums[i] == uc_nums[j] (or asym[i] == asym[j]) in the merge condition",
+               found=[f"{'' if p else 'not '}{c}"[-80:] for c, p in a.guards])
+
+
+def ds_term(defs):
+    return defs.get("dist")
 
 
 def pair_enumeration(ev, defs):
